@@ -128,6 +128,7 @@ pub async fn server(ctx: Ctx, obj: u64, svc: u64, slot: ServiceSlot, clients_lef
     };
     let id = service.id();
     slot.set(Some(id));
+    #[allow(unused_assignments)]
     let mut seq = 0u32;
     loop {
         let next = select2(service.next_call(), clients_left.wait_zero()).await;
@@ -153,7 +154,7 @@ pub async fn server(ctx: Ctx, obj: u64, svc: u64, slot: ServiceSlot, clients_lef
             }
         };
         if ctx.chance(1, 2) {
-            seq += 1;
+            seq = ctx.token();
             let ev = ctx.below(2) as u32;
             ctx.log.fact(&ctx.name, "emit", json!({"srv": svc, "ev": ev, "k": seq}));
             let _ = service.emit(ev, seq);
@@ -161,7 +162,7 @@ pub async fn server(ctx: Ctx, obj: u64, svc: u64, slot: ServiceSlot, clients_lef
     }
     // a few more events for late subscribers, then the end
     for _ in 0..ctx.below(3) {
-        seq += 1;
+        seq = ctx.token();
         let ev = ctx.below(2) as u32;
         ctx.log.fact(&ctx.name, "emit", json!({"srv": svc, "ev": ev, "k": seq}));
         let _ = service.emit(ev, seq);
@@ -255,7 +256,7 @@ pub async fn subscriber(ctx: Ctx, srv: u64, slot: ServiceSlot, all: bool, ev: u3
             None => break,
         }
     }
-    ctx.log.ret(&ctx.name, "events", opid, "ok", json!({"seen": seen}));
+    ctx.log.ret(&ctx.name, "events", opid, "ok", json!({"seen": seen, "want": k, "srv": srv, "all": all, "sub": ev}));
     if ctx.chance(1, 2) {
         let _ = if all {
             op!(ctx, "unsubscribe_all", json!({}), proxy.unsubscribe_all())
